@@ -14,7 +14,6 @@ import (
 	"time"
 
 	"github.com/gogo/protobuf/proto"
-	dbm "github.com/tendermint/tm-db"
 
 	bcv0 "github.com/tendermint/tendermint/blockchain/v0"
 	cfg "github.com/tendermint/tendermint/config"
@@ -214,6 +213,7 @@ type node struct {
 	tick           int
 	deliveries     []delivery
 	reconnects     int
+	journal        *lib.CrashJournal
 	stops          int
 	handoverHonest bool // an honest full peer with delivered status was connected when the hand-over began
 }
@@ -247,11 +247,13 @@ func newNode(sc *scenario, chain *lib.Chain) (*node, error) {
 	if err != nil {
 		return nil, err
 	}
-	n.stateStore = sm.NewStore(dbm.NewMemDB(), sm.StoreOptions{})
+	// block and state database share one mutation journal: every prefix of it is what a crash could leave behind
+	n.journal = lib.NewCrashJournal()
+	n.stateStore = sm.NewStore(n.journal.NewDB("state"), sm.StoreOptions{})
 	if err := n.stateStore.Save(st); err != nil {
 		return nil, err
 	}
-	n.blockStore = store.NewBlockStore(dbm.NewMemDB())
+	n.blockStore = store.NewBlockStore(n.journal.NewDB("block"))
 	n.app = lib.NewScriptApp()
 	chain.App.Mu.Lock()
 	for h, p := range chain.App.Plans {
@@ -619,6 +621,7 @@ type outcome struct {
 	finalState sm.State
 	// the pool's idea of the best peer height stayed above everything a connected peer claims
 	stuckMax, stuckBest, stuckPool int64
+	belowInitial                   string // the pool never got to the chain's first height
 	silent                         string // a peer that went silent was not dropped (see run)
 	wedged                         bool   // stopped early: a blame violation persisted (see blameViolations)
 }
@@ -643,6 +646,7 @@ func (n *node) run(budget time.Duration) (*outcome, error) {
 	lastCheck, strikes := start, 0
 	lastBlame, blameStrikes := start, 0
 	lastSilent := start
+	lastBelow, belowStrikes := start, 0
 	for {
 		select {
 		case <-n.wrap.done:
@@ -675,6 +679,21 @@ func (n *node) run(budget time.Duration) (*outcome, error) {
 				}
 			} else {
 				blameStrikes = 0
+			}
+		}
+		// the pool waits for a height below the chain's first block: no peer has it, it can never advance
+		if pv != nil && time.Since(start) > 3*time.Second && time.Since(lastBelow) > 400*time.Millisecond {
+			lastBelow = time.Now()
+			if ph := pv.VerifC13PoolHeight(); ph < n.sc.Initial {
+				belowStrikes++
+				if belowStrikes >= 4 {
+					out.timedOut = true
+					out.belowInitial = fmt.Sprintf("block sync cannot start: the pool waits for height %d, the chain (and every peer's range) begins at %d; nothing has been requested from the honest peer",
+						ph, n.sc.Initial)
+					break
+				}
+			} else {
+				belowStrikes = 0
 			}
 		}
 		// silent peers: the pool gives a peer that owes blocks peerTimeout to deliver one; a peer that has owed blocks
@@ -803,4 +822,72 @@ func (n *node) blameViolations() []string {
 		}
 	}
 	return out
+}
+
+// restartAfterCrash reopens the stores as a crash after the first k journal entries would have left them and goes
+// through what a restarting node does before it can take part again: load the state, ABCI handshake against a fresh
+// application replica (replays the stored blocks), build the consensus state (rebuilds the last commit from the
+// stored seen commit) and the block-sync reactor (insists on state and store being level). Returns "" if all of that
+// works.
+func (n *node) restartAfterCrash(k int) (msg string) {
+	dbs := n.journal.Materialize(k)
+	where := "loading the state"
+	defer func() {
+		if r := recover(); r != nil {
+			msg = fmt.Sprintf("%s panicked: %v", where, r)
+		}
+	}()
+	stateStore := sm.NewStore(dbs["state"], sm.StoreOptions{})
+	state, err := stateStore.LoadFromDBOrGenesisDoc(n.chain.GenDoc)
+	if err != nil {
+		return fmt.Sprintf("loading the state: %v", err)
+	}
+	blockStore := store.NewBlockStore(dbs["block"])
+	stateH, storeH := state.LastBlockHeight, blockStore.Height()
+	if stateH == 0 && storeH > 0 {
+		// Not judged: the canonical chain of this harness is built from the bare genesis state (empty
+		// LastResultsHash in the first header), whereas a handshake that starts at height 0 runs InitChain and puts
+		// the RFC-6962 empty hash there; replaying the first stored block against that state fails for that reason
+		// alone. Crash points inside the very first block are therefore left out.
+		return ""
+	}
+	app := lib.NewScriptApp()
+	n.chain.App.Mu.Lock()
+	for h, p := range n.chain.App.Plans {
+		app.Plans[h] = p
+	}
+	n.chain.App.Mu.Unlock()
+	proxyApp := proxy.NewAppConns(proxy.NewLocalClientCreator(app))
+	proxyApp.SetLogger(nopLogger)
+	if err := proxyApp.Start(); err != nil {
+		return fmt.Sprintf("VERIF-INFRA proxy: %v", err)
+	}
+	defer proxyApp.Stop() //nolint
+	where = fmt.Sprintf("the ABCI handshake (state at %d, block store at %d)", stateH, storeH)
+	hs := consensus.NewHandshaker(stateStore, state, blockStore, n.chain.GenDoc)
+	hs.SetLogger(nopLogger)
+	if err := hs.Handshake(proxyApp); err != nil {
+		return fmt.Sprintf("%s failed: %v", where, err)
+	}
+	state, err = stateStore.Load()
+	if err != nil {
+		return fmt.Sprintf("reloading the state: %v", err)
+	}
+	if state.LastBlockHeight != blockStore.Height() {
+		return fmt.Sprintf("after the handshake the state is at %d and the block store at %d", state.LastBlockHeight, blockStore.Height())
+	}
+	mp, evp := mpmock.Mempool{}, sm.EmptyEvidencePool{}
+	blockExec := sm.NewBlockExecutor(stateStore, nopLogger, proxyApp.Consensus(), mp, evp)
+	where = fmt.Sprintf("building the consensus state at height %d", state.LastBlockHeight)
+	ccfg := cfg.TestConsensusConfig()
+	ccfg.RootDir = n.tmp
+	cs := consensus.NewState(ccfg, state.Copy(), blockExec, blockStore, mp, evp)
+	if state.LastBlockHeight > 0 {
+		if lc := cs.GetRoundState().LastCommit; lc == nil || !lc.HasTwoThirdsMajority() {
+			return fmt.Sprintf("consensus state at height %d has no +2/3 last commit", state.LastBlockHeight)
+		}
+	}
+	where = "building the block-sync reactor"
+	bcv0.NewBlockchainReactor(state.Copy(), blockExec, blockStore, true)
+	return ""
 }
